@@ -325,7 +325,12 @@ impl World {
 
     fn observe(&mut self) -> Vec<i64> {
         let mut o = vec![];
-        let pool = self.pool.lock().unwrap().clone();
+        // once the last handle is being dropped the pool counts as gone (as in the model)
+        let pool = if self.droppool_pending {
+            None
+        } else {
+            self.pool.lock().unwrap().clone()
+        };
         match pool {
             Some(p) => {
                 let s = p.verif_snapshot();
@@ -579,7 +584,7 @@ impl Gen {
         }
     }
 
-    fn choose(&mut self, w: &World, total_cap: usize) -> Option<Vec<i64>> {
+    fn choose(&mut self, w: &World, total_cap: usize, progress: u64) -> Option<Vec<i64>> {
         let r = &mut self.rng;
         let states = w.sched.states();
         let mut cands: Vec<(u64, Vec<i64>)> = vec![];
@@ -590,11 +595,11 @@ impl Gen {
                 Yield::Done(_) => {}
                 Yield::Start | Yield::Point(_) => {
                     active += 1;
-                    cands.push((10, vec![L_STEP, ti, 0, 0, 0]));
+                    cands.push((14, vec![L_STEP, ti, 0, 0, 0]));
                 }
                 Yield::Gate { sync, .. } => {
                     active += 1;
-                    cands.push((8, vec![L_ENV, ti, 0, 0, 0]));
+                    cands.push((12, vec![L_ENV, ti, 0, 0, 0]));
                     cands.push((3, vec![L_ENV, ti, 1, 0, 0]));
                     cands.push((1, vec![L_ENV, ti, 2, 0, 0]));
                     if !sync {
@@ -610,34 +615,48 @@ impl Gen {
             }
         }
         let n = states.len();
-        if w.pool_alive() && active < 4 && n < total_cap {
+        if w.pool_alive() && active < 7 && n < total_cap {
             let nt = n as i64;
             let held: Vec<usize> = w.held.lock().unwrap().keys().cloned().collect();
             // timeouts code: mostly plain / non-blocking, sometimes the no-runtime cases
-            let tk = match r.below(20) {
-                0..=10 => 0,
-                11..=15 => 1,
-                16 => 2,
-                17 => 3 * (1 + r.below(2) as i64),
-                18 => 9 * (1 + r.below(2) as i64),
+            let tk = match r.below(40) {
+                0..=24 => 0,
+                25..=34 => 1,
+                35 => 2,
+                36 => 3 * (1 + r.below(2) as i64),
+                37 => 9 * (1 + r.below(2) as i64),
                 _ => r.below(27) as i64,
             };
-            cands.push((12, vec![L_START, nt, OP_GET, tk, 0]));
+            let idle_len = w.pool.lock().unwrap().as_ref().map(|p| p.verif_snapshot().idle_len).unwrap_or(0) as u64;
+            if active < 4 {
+                cands.push((if idle_len > 0 { 16 } else if held.len() >= 2 { 3 } else { 7 }, vec![L_START, nt, OP_GET, tk, 0]));
+            }
             if !held.is_empty() {
                 let o = held[r.below(held.len() as u64) as usize] as i64;
-                cands.push((8, vec![L_START, nt, OP_DROP, o, 0]));
+                cands.push((10 + 8 * held.len() as u64, vec![L_START, nt, OP_DROP, o, 0]));
                 let o = held[r.below(held.len() as u64) as usize] as i64;
-                cands.push((2, vec![L_START, nt, OP_TAKE, o, 0]));
+                cands.push((3, vec![L_START, nt, OP_TAKE, o, 0]));
             }
-            cands.push((2, vec![L_START, nt, OP_STATUS, 0, 0]));
+            cands.push((1, vec![L_START, nt, OP_STATUS, 0, 0]));
             let nb = r.below(4) as i64;
-            cands.push((2, vec![L_START, nt, OP_RETAIN, r.below(1 << nb) as i64, nb]));
+            cands.push((if idle_len > 0 { 4 } else { 1 }, vec![L_START, nt, OP_RETAIN, r.below(1 << nb) as i64, nb]));
             if self.profile != Profile::Core {
                 let cur = w.pool.lock().unwrap().as_ref().unwrap().status().max_size as u64;
-                cands.push((4, vec![L_START, nt, OP_RESIZE, r.below(cur + 3) as i64, 0]));
+                // mostly small moves around the current limit, sometimes anything in 0..=cur+2
+                let target = match r.below(8) {
+                    0 => 0,
+                    1 | 2 => cur.saturating_sub(1),
+                    3 | 4 => cur + 1,
+                    5 => cur + 2,
+                    6 => cur,
+                    _ => r.below(cur + 3),
+                };
+                cands.push((2, vec![L_START, nt, OP_RESIZE, target as i64, 0]));
             }
-            if self.profile == Profile::Close || self.profile == Profile::Mixed {
-                cands.push((1, vec![L_START, nt, OP_CLOSE, 0, 0]));
+            // close late, so that most of the history runs on an open pool
+            let close_from = if self.profile == Profile::Close { 35 } else { 60 };
+            if (self.profile == Profile::Close || self.profile == Profile::Mixed) && progress >= close_from {
+                cands.push((2, vec![L_START, nt, OP_CLOSE, 0, 0]));
             }
         }
         if cands.is_empty() {
@@ -668,7 +687,7 @@ fn run_label(w: &mut World, out: &mut TraceOut, l: Vec<i64>) -> bool {
 }
 
 /// drain all tasks, give everything back, then probe the capacity through the public API
-fn finish(w: &mut World, out: &mut TraceOut, probe: bool) {
+fn finish(w: &mut World, out: &mut TraceOut, probe: bool, orphan: bool) {
     let _ = run_label(w, out, vec![L_MARK, 1, 0, 0, 0]);
     let mut guard = 0;
     while let Some(l) = w.drain_label() {
@@ -682,6 +701,37 @@ fn finish(w: &mut World, out: &mut TraceOut, probe: bool) {
         }
     }
     if !probe || !w.pool_alive() {
+        return;
+    }
+    if orphan {
+        // all pool handles go away while objects are still out; they are dropped / taken afterwards
+        let t = w.sched.ntasks() as i64;
+        if !run_label(w, out, vec![L_START, t, OP_DROPPOOL, 0, 0]) {
+            return;
+        }
+        while let Some(l) = w.drain_label() {
+            if !run_label(w, out, l) {
+                return;
+            }
+        }
+        let mut k = 0;
+        loop {
+            let o = match w.held.lock().unwrap().keys().next() {
+                Some(o) => *o as i64,
+                None => break,
+            };
+            let t = w.sched.ntasks() as i64;
+            k += 1;
+            let op = if k % 2 == 0 { OP_TAKE } else { OP_DROP };
+            if !run_label(w, out, vec![L_START, t, op, o, 0]) {
+                return;
+            }
+            while let Some(l) = w.drain_label() {
+                if !run_label(w, out, l) {
+                    return;
+                }
+            }
+        }
         return;
     }
     // return every object
@@ -759,10 +809,10 @@ fn gen_trace(g: &mut Gen) -> TraceOut {
         obs: vec![],
         err: None,
     };
-    let cap = 6 + g.rng.below(10) as usize;
+    let cap = 10 + g.rng.below(22) as usize;
     let nlabels = 10 + g.rng.below(g.max_labels as u64 - 9) as usize;
-    for _ in 0..nlabels {
-        match g.choose(&w, cap) {
+    for k in 0..nlabels {
+        match g.choose(&w, cap, (100 * k / nlabels) as u64) {
             Some(l) => {
                 if !run_label(&mut w, &mut out, l) {
                     break;
@@ -772,7 +822,8 @@ fn gen_trace(g: &mut Gen) -> TraceOut {
         }
     }
     if out.err.is_none() {
-        finish(&mut w, &mut out, true);
+        let orphan = g.rng.chance(12);
+        finish(&mut w, &mut out, true, orphan);
     }
     cleanup(w);
     out
